@@ -474,6 +474,86 @@ def table_dispatch(rep):
             setattr(mod, cn, base)
 
 
+def table_entry_points(rep):
+    """the REAL back-end classes (no recording subclass): which external entry point receives the request, how many requests one
+    find_answer / solve makes, and whether the request carries the answer-key line that switches the external solver into
+    deduction mode.  The external solvers are stand-ins behind the documented entry points (run_subprocess for the two Sugar
+    executables, <module>.solver(text) for the three bindings)."""
+    import types
+    log = []
+    saved_rs = SL.run_subprocess
+    saved_mods = {m: sys.modules.get(m) for m in ("pycsugar", "enigma_csp", "cspuz_core")}
+    saved_path = cspuz.config.backend_path
+
+    def fake_run(args, text, timeout=None):
+        log.append(("subprocess:" + str(args[0]), text))
+        return sugartext.answer(text)
+
+    def fake_module(name):
+        m = types.ModuleType(name)
+
+        def solver(text):
+            log.append(("module:" + name, text))
+            return sugartext.answer(text)
+        m.solver = solver
+        return m
+    entry = {"sugar": "subprocess:/opt/fake/sugar", "sugar_extended": "subprocess:/opt/fake/sugar", "csugar": "module:pycsugar",
+             "enigma_csp": "module:enigma_csp", "cspuz_core": "module:cspuz_core"}
+    try:
+        SL.run_subprocess = fake_run
+        for m in saved_mods:
+            sys.modules[m] = fake_module(m)
+        cspuz.config.backend_path = "/opt/fake/sugar"
+        for name in entry:
+            for method in ("find_answer", "solve"):
+                for nkeys in (2, 0):
+                    rep.finite_tables += 1
+                    del log[:]
+                    s = Solver()
+                    x, y = s.bool_var(), s.bool_var()
+                    n = s.int_var(0, 2)
+                    s.ensure(x, (n >= 1) | y)
+                    if nkeys:
+                        s.add_answer_key(x, y)
+                    with warnings.catch_warnings():
+                        warnings.simplefilter("ignore")
+                        try:
+                            ret = getattr(s, method)(backend=name)
+                            err = None
+                        except Exception as e:      # noqa: B902
+                            ret, err = None, "%s: %s" % (type(e).__name__, e)
+                    keyed = [any(ln.startswith("#") for ln in t.splitlines()) for (_, t) in log]
+                    where = sorted(set(w for (w, _) in log))
+                    bad = None
+                    if err is not None:
+                        bad = "raised " + err
+                    elif ret is not True:
+                        bad = "returned %r on a satisfiable program" % (ret,)
+                    elif where != [entry[name]]:
+                        bad = "requests went to %r, expected %r" % (where, entry[name])
+                    elif method == "find_answer" and (len(log) != 1 or keyed != [False]):
+                        bad = "find_answer made %d request(s), key line present: %r (expected one plain request)" % (len(log), keyed)
+                    elif method == "solve" and name == "sugar" and (len(log) < 1 or any(keyed)):
+                        bad = "plain Sugar has no deduction mode: %d request(s), key line present: %r" % (len(log), keyed)
+                    elif method == "solve" and name != "sugar" and (len(log) != 1 or keyed != [True]):
+                        bad = "solve must hand the whole deduction to the external solver in ONE request carrying the answer-key line: " \
+                              "%d request(s), key line present: %r" % (len(log), keyed)
+                    elif method == "solve" and nkeys and (x.sol is not True or y.sol is not None):
+                        bad = "facts after solve: x=%r y=%r (expected True, None)" % (x.sol, y.sol)
+                    if bad:
+                        rep.counterexample("entry-point:" + name, "%s(backend=%r), %d answer keys: %s" % (method, name, nkeys, bad),
+                                           {"engine": "table", "what": "entry", "name": name, "method": method}, True)
+                        return
+    finally:
+        SL.run_subprocess = saved_rs
+        cspuz.config.backend_path = saved_path
+        for m, v in saved_mods.items():
+            if v is None:
+                sys.modules.pop(m, None)
+            else:
+                sys.modules[m] = v
+
+
 def run(tier, only=None):
     rep = common.Report("C20", tier, "other", FILES)
     part_strtobool(rep)
@@ -483,6 +563,7 @@ def run(tier, only=None):
     table_config(rep)
     table_precedence(rep)
     table_dispatch(rep)
+    table_entry_points(rep)
     rep.functions = ["configuration._strtobool (AST -> SMT-LIB strings, cvc5)", "solver._get_backend_by_name / _get_backend (CrossHair)",
                      "configuration._get_default / _detect_backend / Config.__init__ (finite table)", "graph.py use_graph_primitive defaulting (finite table)",
                      "Solver.find_answer / solve backend dispatch (finite table)"]
@@ -490,6 +571,8 @@ def run(tier, only=None):
                   "_get_backend_by_name": "every string of length <= 15 (CrossHair)",
                   "Config": "2^4 import-availability combinations (+ present-but-broken modules) x 9 backend settings x 9 x 4 flag spellings x infer_from_env (finite table, real module files in a temp dir)",
                   "precedence": "6 graph constraints x argument {None,True,False} x both config flags (finite table)",
+                  "entry points": "the 5 text back ends (real classes) x {find_answer, solve} x {2, 0} answer keys: entry point used, number of "
+                  "requests, presence of the answer-key line, resulting facts (finite table; stand-in external solvers)",
                   "dispatch": "7 defaults x 9 backend arguments x {find_answer, solve} x {Solver created before / after the default was assigned} (finite table)"}
     rep.outside = ["longer backend names (the dispatch is a chain of == comparisons)", "csugar_binding / backend_path / solver_timeout plumbing"]
     rep.assumptions += ["cvc5 1.0.3 (binary on PATH) is sound for QF_SLIA with str.to_lower", "CrossHair soundness"]
@@ -507,5 +590,5 @@ def replay(payload, verbose=False):
     rep = common.Report("C20", "quick", "other", FILES)
     hits = []
     rep.counterexample = lambda key, text, pl, ok: hits.append(pl)   # type: ignore
-    {"config": table_config, "precedence": table_precedence, "dispatch": table_dispatch}.get(payload.get("what"), lambda r: None)(rep)
+    {"config": table_config, "precedence": table_precedence, "dispatch": table_dispatch, "entry": table_entry_points}.get(payload.get("what"), lambda r: None)(rep)
     return bool(hits)
